@@ -48,7 +48,7 @@ fn run(kind: u8, h: u32, db: &MockDb) -> bool {
     ok
 }
 
-//@ harness kind=proof tier=quick timeout=1200
+//@ harness kind=proof tier=thorough timeout=2400
 #[kani::proof]
 #[kani::stub(fuel_core_types::blockchain::header::BlockHeaderV1::recalculate_metadata, no_recalc_stub)]
 #[kani::stub(std::hash::RandomState::new, fixed_random_state)]
@@ -75,7 +75,7 @@ fn c08_create_block_changes() {
 }
 
 // Vacuity canary: "nothing is ever accepted" must FAIL.
-//@ harness kind=canary tier=quick expect=C08.importer-next.canary.never-accepts timeout=1200
+//@ harness kind=canary tier=thorough expect=C08.importer-next.canary.never-accepts timeout=2400
 #[kani::proof]
 #[kani::stub(fuel_core_types::blockchain::header::BlockHeaderV1::recalculate_metadata, no_recalc_stub)]
 #[kani::stub(std::hash::RandomState::new, fixed_random_state)]
